@@ -292,3 +292,33 @@ Fixpoint trace_cone_amend (run : N -> list (option N) -> list (option N) -> N ->
      map (fun x => (fst x, negb (oN_eqb (fs (abase y2) (fst x)) (fs (abase y) (fst x))))) echg)
       :: trace_cone_amend run tab proj y2 rest
   end.
+
+(* with OPTIONAL steps: [mand] lists the ids whose declared need is above OPTIONAL; only required steps get a turn *)
+Fixpoint check_cone_dyn_opt (run : N -> list (option N) -> list (option N) -> N -> N) (mand : list N)
+         (P : project) (y : sys) (phases : list (project * cone_phase)) : bool :=
+  match phases with
+  | [] => true
+  | (P', (src, env, eran, eskip, echg)) :: rest =>
+    let y1 := resync P' (retarget P P' y) (src_of src, src_of env) in
+    let sched := filter (is_required (fun id => memN id mand) P') P' in
+    let y2 := build_from run P' sched y1 in
+    let log := build_log run P' sched y1 in
+    wf P' &&
+    set_eqb (map fst (filter snd log)) eran &&
+    forallb (fun x => memN x eskip) (map fst (filter (fun x => negb (snd x)) log)) &&
+    forallb (fun x => Bool.eqb (negb (oN_eqb (fs y2 (fst x)) (fs y (fst x)))) (snd x)) echg &&
+    check_cone_dyn_opt run mand P' y2 rest
+  end.
+Fixpoint trace_cone_dyn_opt (run : N -> list (option N) -> list (option N) -> N -> N) (mand : list N)
+         (P : project) (y : sys) (phases : list (project * cone_phase))
+  : list (list (N * bool) * list (N * bool)) :=
+  match phases with
+  | [] => []
+  | (P', (src, env, _, _, echg)) :: rest =>
+    let y1 := resync P' (retarget P P' y) (src_of src, src_of env) in
+    let sched := filter (is_required (fun id => memN id mand) P') P' in
+    let y2 := build_from run P' sched y1 in
+    (build_log run P' sched y1,
+     map (fun x => (fst x, negb (oN_eqb (fs y2 (fst x)) (fs y (fst x))))) echg)
+      :: trace_cone_dyn_opt run mand P' y2 rest
+  end.
